@@ -606,6 +606,11 @@ func (h *OperationProvider) validateProvisionalIndexCASReferences(pif *models.Pr
 		return errors.Wrapf(err, "provisional proof URI")
 	}
 
+	// only the first chunk file is read: further chunk references are superfluous
+	if len(pif.Chunks) > 1 {
+		return fmt.Errorf("provisional index file has %d chunk references, at most one is supported", len(pif.Chunks))
+	}
+
 	if len(pif.Chunks) > 0 {
 		if err := h.validateURI(pif.Chunks[0].ChunkFileURI); err != nil {
 			return errors.Wrapf(err, "chunk URI")
